@@ -45,6 +45,11 @@ func c01build() {
 			}
 			add("WriteFullFile/"+sit, setup, fsx.Step{K: "WriteFullFile", P: t, Data: "W-full", Perm: 0o600}, fsx.Step{K: "ReadFile", P: t})
 			add("WriteFullFile-empty/"+sit, setup, fsx.Step{K: "WriteFullFile", P: t, Data: "", Perm: 0o644})
+			// a permission argument that carries file-type bits (somebody passed another entry's whole Mode()): like os, only the
+			// permission bits count - what is created is a regular file, or a directory for Mkdir
+			add("WriteFullFile-typebits/"+sit, setup, fsx.Step{K: "WriteFullFile", P: t, Data: "W-type", Perm: uint32(os.ModeDir) | 0o644}, fsx.Step{K: "Stat", P: t}, fsx.Step{K: "ReadFile", P: t})
+			add("OpenClose-typebits/"+sit, setup, fsx.Step{K: "OpenClose", P: t, Flag: os.O_RDWR | os.O_CREATE, Perm: uint32(os.ModeDir) | 0o750, Data: "W-open"}, fsx.Step{K: "Stat", P: t}, fsx.Step{K: "ReadDir", P: t})
+			add("Mkdir-typebits/"+sit, setup, fsx.Step{K: "Mkdir", P: t, Perm: uint32(os.ModeSymlink|os.ModeNamedPipe) | 0o750}, fsx.Step{K: "Stat", P: t}, fsx.Step{K: "MkdirAll", P: deeper, Perm: uint32(os.ModeSymlink) | 0o700}, fsx.Step{K: "Stat", P: deeper})
 			if sit != "root" {
 				add("Remove/"+sit, setup, fsx.Step{K: "Remove", P: t}, fsx.Step{K: "Stat", P: t})
 				add("RemoveAll/"+sit, setup, fsx.Step{K: "RemoveAll", P: t}, fsx.Step{K: "Stat", P: t})
@@ -91,6 +96,11 @@ func c01build() {
 				add("unusual-name/"+n, nil, fsx.Step{K: "Mkdir", P: n, Perm: 0o755}, fsx.Step{K: "WriteFullFile", P: n + "/" + n, Data: "x", Perm: 0o644}, fsx.Step{K: "Stat", P: n + "/" + n},
 					fsx.Step{K: "Rename", P: n + "/" + n, P2: "c"}, fsx.Step{K: "Rename", P: "c", P2: n + "/c" + n}, fsx.Step{K: "ReadDir", P: n}, fsx.Step{K: "MkdirAll", P: n + "/" + n + "/" + n, Perm: 0o700}, fsx.Step{K: "RemoveAll", P: n})
 			}
+			// the longest name an operating system takes (255 bytes) is a name like any other
+			long := strings.Repeat("L", 255)
+			add("longest-name", nil, fsx.Step{K: "Mkdir", P: long, Perm: 0o755}, fsx.Step{K: "WriteFullFile", P: long + "/" + long, Data: "x", Perm: 0o644}, fsx.Step{K: "Stat", P: long + "/" + long},
+				fsx.Step{K: "OpenClose", P: long + "/" + long[:254] + "o", Flag: os.O_RDWR | os.O_CREATE | os.O_EXCL, Perm: 0o600, Data: "n"}, fsx.Step{K: "Rename", P: long + "/" + long, P2: "c"}, fsx.Step{K: "Rename", P: "c", P2: long + "/" + long[:254] + "r"},
+				fsx.Step{K: "ReadDir", P: long}, fsx.Step{K: "MkdirAll", P: long + "/" + long[:254] + "d/" + long, Perm: 0o700}, fsx.Step{K: "RemoveAll", P: long})
 			// a directory moved into a directory whose name merely starts with the same characters
 			add("Rename-into-lookalike-dir", append(s, fsx.Step{K: "Mkdir", P: "ab", Perm: 0o755}, fsx.Step{K: "Mkdir", P: "ab/c", Perm: 0o755}), fsx.Step{K: "Rename", P: "a", P2: "ab/b"}, fsx.Step{K: "ReadFile", P: "ab/b/b/c"}, fsx.Step{K: "Rename", P: "ab/c", P2: "ab/b/c"})
 			// the parent goes away (renamed, removed) between two calls of the same kind below it: nothing remembered from the
